@@ -104,13 +104,6 @@ def writeFlows (σe : StoreId) (k : Kind) (db db' : Db) (id : String) : List Flo
   | .C => [{ store := .P, kind := k, id := id, initial := init .P, final := fin .P, parentEvent := true },
            { store := .C, kind := k, id := id, initial := init .C, final := fin .C, parentEvent := false }]
 
-/-- the parent fields a create replaces: those of an existing plain parent entity, when child data is
-    created over it through the child store (legal: the child store only looks at its own data) -/
-def createOld (σ : StoreId) (db : Db) (id : String) : Option PFields :=
-  match σ with
-  | .P => none
-  | .C => (db.get id).map (·.f)
-
 /-- a create of child data over an existing parent entity first asks the parent store's index-stage
     constraints "before update" -/
 def createOverVetoed (env : Env) (σ : StoreId) (db : Db) (id : String) : Bool :=
@@ -247,7 +240,9 @@ def specTxWith (env : Env) (txComplete : Bool) (db : Db) (ctx : Ctx) (body : Lis
         ++ announceTo .P b.flows (indexed env.regsP) ++ announceTo .C b.flows (indexed env.regsC)
         ++ (if txComplete then (List.range env.txListeners).map Fired.txComplete else []),
       ctx := b.ctx, specified := b.specified }
-  else { ok := false, db := db, fired := [], ctx := b.ctx, specified := true }
+  -- once the body went on after a rejection the spec says nothing about (see `Verdict.exact`), whether
+  -- a later step is rejected is judged on a database the spec does not know: not specified either
+  else { ok := false, db := db, fired := [], ctx := b.ctx, specified := b.specified }
 
 /-- The context outlives the transaction; a Batch whose body fails registers everything a second
     time (the body is re-run), which matters only if the context is used again. -/
